@@ -164,7 +164,19 @@ def _gen_from(rnd):
             prog.insert(rnd.randint(0, len(prog)), ["b", op[1], gen_prog(rnd, 1)])
             protect.add(" ".join(map(str, op[1])))
         acl = acl_for(rnd, tree_of(model_paths(prog)), protect)
-        gens.append({"prog": prog, "acl": acl, "acl_indent": rnd.choice([0, 0, 4, 8, 12])})
+        if rnd.chance(12):
+            # 'no shutdown' style: the generator owns a negated line through an explicit rule, next to an add-only rule for the plain
+            # line (listed first); the head is private to this generator, so nothing else matches these two lines
+            rev = {"huawei": "undo", "cisco": "no"}[vendor]
+            head = "shut%d" % i
+            prog.insert(rnd.randint(0, len(prog)), ["y", rev + " " + head])
+            acl = [RA.acl_rule([head], cd=1), RA.acl_rule([rev, head])] + acl
+        g = {"prog": prog, "acl": acl, "acl_indent": rnd.choice([0, 0, 4, 8, 12])}
+        if rnd.chance(12):
+            # the generator object served another device before, which it refused (NotSupportedDevice) after yielding k lines,
+            # possibly from inside a block
+            g["aborted_first_run"] = {"after": rnd.randint(1, 3), "in_block": rnd.chance(50)}
+        gens.append(g)
     return {"vendor": vendor, "gens": gens}
 
 
@@ -218,6 +230,17 @@ def _make_gen(i, spec, vendor):
                     yield from interp(self, op[2])
 
     def run(self, device):
+        ab = spec.get("aborted_first_run")
+        if ab and getattr(device, "hostname", "") == "refused":
+            from annet.generators import NotSupportedDevice
+            if ab["in_block"]:
+                with self.block("interface", "stale0"):
+                    for k in range(ab["after"]):
+                        yield "stale line %d" % k
+                    raise NotSupportedDevice("not for this device")
+            for k in range(ab["after"]):
+                yield "stale line %d" % k
+            raise NotSupportedDevice("not for this device")
         yield from interp(self, spec["prog"])
 
     def acl(self, device):
@@ -289,6 +312,18 @@ def check(case):
     res = None
     with mock.patch("annet.generators.run_partial_initial") as rpi:
         rpi.return_value = mock.Mock(config_tree=lambda: {}, perf_mesures=lambda: {})
+        if any(s.get("aborted_first_run") for s in case["gens"]):
+            # the same generator objects first serve a device they refuse; nothing of that run may survive into the next one
+            labels.append("generator-objects-reused")
+            dev0 = _Dev(hw)
+            dev0.hostname = "refused"
+            dg0 = G.DeviceGenerators(partial={dev0: [g for g, s in zip(gens, case["gens"]) if s.get("aborted_first_run")]}, ref={dev0: []},
+                                     entire={dev0: []}, json_fragment={dev0: []})
+            ctx0 = G.OldNewDeviceContext(**dict(ctx.__dict__, gens=dg0))
+            try:
+                G._old_new_per_device(ctx0, dev0, mock.Mock())
+            except Exception as e:
+                raise Violation("unexpected-error", f"a generator refusing its device made the run fail: {type(e).__name__}: {e}", det)
         try:
             res = G._old_new_per_device(ctx, dev, mock.Mock())
         except GeneratorError as e:
